@@ -258,7 +258,8 @@ def generate(contract, ov):
         cx.loop_ids[id(n)] = i
     st, args, kwargs, info = contract.setup(cx, I, ov)
     st = st.gset("__class__", contract.owner_class)
-    outcomes = I.bind_params(fn, args, kwargs, st, lambda env, st2: I.block(fn.body, st2.with_env(env)))
+    closure = dict(info.get("closure_env", {}))       # free variables of a nested function (its enclosing scope)
+    outcomes = I.bind_params(fn, args, kwargs, st, lambda env, st2: I.block(fn.body, st2.with_env({**closure, **env})))
     obs = []
     name0 = "%s[%s]" % (contract.cid, ov)
     cover_preds = contract.covers(cx, ov, info)
